@@ -100,10 +100,7 @@ func (rd *reader) remainingRule(rule string) {
 				ok, why = false, "transport read without consulting Conn.readRemaining"
 				continue
 			}
-			if !hasLit(p, ev.NLits, true, func(t *core.Term) bool {
-				z, isC := t.Args0Int()
-				return t.Kind == core.KLt && isC && z == 0 && t.Args[1] == rem
-			}) {
+			if !knowsGe(p, ev.NLits, 1, is(rem)) {
 				ok, why = false, "payload read at "+c.P.Pos(ev.Instr.Pos())+" without [readRemaining > 0]"
 			}
 			bounded := (buf.Kind == core.KSlice && buf.Args[1].Kind == core.KNone && buf.Args[2] == rem) ||
@@ -138,11 +135,7 @@ func (rd *reader) remainingRule(rule string) {
 				skip = ev
 			}
 		}
-		remPos := hasLit(p, len(p.Lits), true, func(t *core.Term) bool {
-			z, isC := t.Args0Int()
-			_, isR := fieldLoad(t.ArgN(1), rd.readRemaining)
-			return t.Kind == core.KLt && isC && z == 0 && isR
-		})
+		remPos := knowsGe(p, len(p.Lits), 1, func(y *core.Term) bool { _, isR := fieldLoad(y, rd.readRemaining); return isR })
 		if p.End == core.EndStop && remPos && skip == nil {
 			ok2, why2 = false, "the next header is read although bytes of the previous frame remain unread"
 		}
